@@ -4,6 +4,8 @@ import vlib
 from checks import semcommon, jsongraph
 
 PROP = "C07"
+# exit code 4 of c05graph: a call of the code under test did not return (the mismatch file holds the input): the cover ends there
+HUNG = {"states": 0, "transitions": 0, "tests": 0, "mismatches": 1}
 KF_ID = "C07-recursion-error-bare"
 KF_TEXT = ("the 'Infinity recursion detected' error of Check / Validate / GetAST / Example is a bare errors.Errorf value without position or file "
            "(notations/jschema/jschema.go compile -> checker.CheckRecursion); its plain text is pinned by TestSchema_Check")
@@ -60,9 +62,9 @@ def run(tier, argv):
     gpath, g = jsongraph.export_schema_graph(work, 1, 1, rep, "r")
     rout = work.path("robust.ndjson")
     p = vlib.run_harness(hbin, ["c05graph", "-graph", gpath, "-out", rout, "-sut", "schema", "-robust"], timeout=6000)
-    if p.returncode != 0:
+    if p.returncode not in (0, 4):
         raise vlib.Infra("c05graph -robust failed: " + p.stderr.decode()[-2000:])
-    rs = semcommon.summary_of(p.stderr)
+    rs = semcommon.summary_of(p.stderr) if p.returncode == 0 else HUNG
     rep.notes["schema_cover"] = {k: rs[k] for k in ("states", "transitions", "tests", "mismatches")}
     for m in vlib.read_ndjson(rout):
         bad.append({"what": m["what"], "op": "schema scanner" if m["what"] == "robust" else "schema." + m["want"], "input": bytes(m["bytes"]).decode("latin-1"), "kind": m["got"].get("kind"),
@@ -70,9 +72,9 @@ def run(tier, argv):
     gpe, ge = jsongraph.export_enum_graph(work, rep, "r")
     eout = work.path("erobust.ndjson")
     p = vlib.run_harness(hbin, ["c05graph", "-graph", gpe, "-out", eout, "-sut", "enum", "-robust"], timeout=3000)
-    if p.returncode != 0:
+    if p.returncode not in (0, 4):
         raise vlib.Infra("c05graph -robust (enum) failed: " + p.stderr.decode()[-2000:])
-    rs2 = semcommon.summary_of(p.stderr)
+    rs2 = semcommon.summary_of(p.stderr) if p.returncode == 0 else HUNG
     rep.notes["enum_cover"] = {k: rs2[k] for k in ("states", "transitions", "tests", "mismatches")}
     for m in vlib.read_ndjson(eout):
         bad.append({"what": m["what"], "op": "enum.Check" if m["what"] == "robust" else "enum." + m["want"], "input": bytes(m["bytes"]).decode("latin-1"), "kind": m["got"].get("kind"),
@@ -80,9 +82,9 @@ def run(tier, argv):
     gpr, gr = jsongraph.export_regex_graph(work, rep, "r")
     rrout = work.path("rrobust.ndjson")
     p = vlib.run_harness(hbin, ["c05graph", "-graph", gpr, "-out", rrout, "-sut", "regex", "-robust"], timeout=3000)
-    if p.returncode != 0:
+    if p.returncode not in (0, 4):
         raise vlib.Infra("c05graph -robust (regex) failed: " + p.stderr.decode()[-2000:])
-    rs3 = semcommon.summary_of(p.stderr)
+    rs3 = semcommon.summary_of(p.stderr) if p.returncode == 0 else HUNG
     rep.notes["regex_cover"] = {k: rs3[k] for k in ("states", "transitions", "tests", "mismatches")}
     for m in vlib.read_ndjson(rrout):
         bad.append({"what": m["what"], "op": "regex.Check" if m["what"] == "robust" else "regex." + m["want"], "input": bytes(m["bytes"]).decode("latin-1"), "kind": m["got"].get("kind"),
